@@ -84,6 +84,11 @@ def guardE (c : Codec α) (ok : α → Bool) (err : PErr) : Codec α where
     if ok x then pure (x, n) else .error err
   compose := c.compose
 
+/-- `if len(parsable) < SIZE: raise NotEnoughData(SIZE - len(parsable))` in front of a parser -/
+def minSize (n : Nat) (c : Codec α) : Codec α where
+  parse := fun bs => if bs.length < n then .error (.notEnough ((n - bs.length : Nat) : Int)) else c.parse bs
+  compose := c.compose
+
 /-- a `k`-byte length prefix, then the inner class parsed with `parse_exact_size` on exactly the
 declared slice: `header(payload length) + payload` framing where the payload must be consumed. -/
 def lenPrefixedExact (bo : ByteOrder) (k : Nat) (c : Codec α) : Codec α where
